@@ -101,6 +101,9 @@ func runC01(c *Ctx) {
 	c01Eval(c, bt, "unpriced", c01GenUnpriced(c, "unpriced", c.N(1500, 12000)))
 	// stream "dust": quantities of 9-20 decimal places (down to 1e-20) in deep account trees, next to ordinary amounts
 	c01Eval(c, bt, "dust", c01GenDust(c, "dust", c.N(1200, 12000)))
+	// stream "illformed": journals with bookings on accounts that are not open on the booking's date (never opened, closed
+	// earlier, opened later), alone and among well-formed bookings, in single files and include trees
+	c01Eval(c, bt, "illformed", c01GenIllformed(c, "illformed", c.N(1500, 12000)))
 }
 
 // c01Eval evaluates the property predicate on the REAL output of every case the real command accepts (whatever the
@@ -775,5 +778,423 @@ func c01GenDust(c *Ctx, stream string, n int) []*balCase {
 		cases = append(cases, &balCase{Idx: i, J: j, Text: text, F: f, Tags: tags})
 	}
 	c01RunCases(c, dir, cases)
+	return cases
+}
+
+// ---------------------------------------------------------------- stream illformed: bookings on accounts that are not open
+//
+// The other streams feed journals the checker accepts (or rejects for a missing price). The property says: WHENEVER the
+// command prints a report, its Delta row is zero - also when the journal is ill-formed and the command, for whatever
+// reason, goes on. Here journals of the lifecycle generator get 1-4 bookings on an account that is not open on the
+// booking's date: an account that is never opened (any of the five types, also a child / the parent of an open account),
+// one that was closed on an earlier day, one that is opened on a later day; the account stands on the credit side, the
+// debit side or both; the booking is inserted as first / middle / last booking of an existing transaction, replaces a side
+// of an existing booking, or forms a transaction of its own (on a day of the journal, or after everything); quantities are
+// positive, negative, zero; in a quarter of the journals an open directive moves to a later day (the bookings in between
+// stand before the open) or is left out; the journal is written as one file or as an include tree (the offending transaction in the
+// root or in an included file). One journal in ten stays well-formed. The unchanged tree rejects every ill-formed journal
+// (exit 1, no report), which satisfies the predicate trivially; the model's verdict is compared as in the other streams.
+// (Seeded change C01-m made `knut balance` drop such bookings with a warning - and left one posting of the pair behind.)
+
+func c01Illform(r *RNG, j *Journal) []string {
+	tagSet := map[string]bool{}
+	// life of every account: days on which it is open for transactions (open on or before the day, no close before the day)
+	type span struct{ from, to int } // open for transactions on days from..to
+	life := map[string][]span{}
+	var accounts, coms []string
+	lastDay := 0
+	if r.Chance(1, 4) {
+		// an open directive moves to a later day (the bookings in between stand before the open), or is left out
+		var opens []int
+		for i, d := range j.Dirs {
+			if d.Kind == 'o' {
+				opens = append(opens, i)
+			}
+		}
+		if len(opens) > 0 {
+			i := Pick(r, opens)
+			if r.Chance(1, 3) {
+				j.Dirs = append(j.Dirs[:i:i], j.Dirs[i+1:]...)
+				tagSet["ill:open-dropped"] = true
+			} else {
+				d := j.Dirs[i]
+				to := j.Dirs[r.Intn(len(j.Dirs))].Date
+				if to <= d.Date {
+					to = j.Dirs[len(j.Dirs)-1].Date + r.Intn(2)
+				}
+				if to > d.Date {
+					d.Date = to
+					j.Dirs = append(append(j.Dirs[:i:i], j.Dirs[i+1:]...), d)
+					tagSet["ill:open-delayed"] = true
+				}
+			}
+		}
+	}
+	for _, d := range j.Dirs {
+		if d.Date > lastDay {
+			lastDay = d.Date
+		}
+		switch d.Kind {
+		case 'o':
+			if !contains(accounts, d.Account) {
+				accounts = append(accounts, d.Account)
+			}
+			life[d.Account] = append(life[d.Account], span{d.Date, 1 << 40})
+		case 'c':
+			if l := life[d.Account]; len(l) > 0 {
+				l[len(l)-1].to = d.Date
+			}
+		case 't':
+			for _, b := range d.Bookings {
+				if !contains(coms, b.Com) {
+					coms = append(coms, b.Com)
+				}
+			}
+		}
+	}
+	if len(coms) == 0 {
+		coms = []string{"CHF"}
+	}
+	isOpen := func(a string, day int) bool {
+		for _, s := range life[a] {
+			if s.from <= day && day <= s.to {
+				return true
+			}
+		}
+		return false
+	}
+	if len(accounts) == 0 || (len(tagSet) == 0 && r.Chance(1, 10)) {
+		return []string{"shape:well-formed"}
+	}
+	ghost := func() (string, string) {
+		segs := []string{"Bonus", "Ghost", "Bank", "Misc", "X", "Épargne"}
+		switch r.Intn(4) {
+		case 0: // child of an opened account
+			return Pick(r, accounts) + ":" + Pick(r, segs), "never-opened-child"
+		case 1: // parent of an opened account
+			a := Pick(r, accounts)
+			if k := strings.LastIndex(a, ":"); strings.Count(a, ":") >= 2 {
+				if p := a[:k]; !contains(accounts, p) {
+					return p, "never-opened-parent"
+				}
+			}
+		}
+		for {
+			a := Pick(r, typeNames) + ":" + Pick(r, segs)
+			if r.Chance(1, 3) {
+				a += ":" + Pick(r, segs)
+			}
+			if !contains(accounts, a) {
+				return a, "never-opened"
+			}
+		}
+	}
+	// an account that is not open on the day, and why
+	offender := func(day int) (string, string) {
+		var closed, later []string
+		for _, a := range accounts {
+			if isOpen(a, day) {
+				continue
+			}
+			if life[a][0].from > day {
+				later = append(later, a)
+			} else {
+				closed = append(closed, a)
+			}
+		}
+		switch k := r.Intn(4); {
+		case k == 0 && len(closed) > 0:
+			return Pick(r, closed), "after-close"
+		case k == 1 && len(later) > 0:
+			return Pick(r, later), "before-open"
+		case k == 2 && len(closed)+len(later) > 0:
+			if len(closed) > 0 {
+				return Pick(r, closed), "after-close"
+			}
+			return Pick(r, later), "before-open"
+		}
+		return ghost()
+	}
+	live := func(day int) []string {
+		var res []string
+		for _, a := range accounts {
+			if isOpen(a, day) {
+				res = append(res, a)
+			}
+		}
+		return res
+	}
+	qty := func() string {
+		switch r.Intn(8) {
+		case 0:
+			return "0"
+		case 1, 2:
+			return fmt.Sprintf("-%d.%02d", r.Intn(500), r.Intn(100))
+		case 3:
+			return fmt.Sprintf("%d", r.Range(1, 5000))
+		}
+		return fmt.Sprintf("%d.%02d", r.Intn(3000), r.Intn(100))
+	}
+	// the offending booking of a day: the side(s) of the account that is not open
+	booking := func(day int) (JBook, bool) {
+		lv := live(day)
+		bad, why := offender(day)
+		side := Pick(r, []string{"credit", "credit", "debit", "debit", "both"})
+		if len(lv) == 0 {
+			side = "both"
+		}
+		b := JBook{Qty: qty(), Com: Pick(r, coms)}
+		switch side {
+		case "credit":
+			b.Credit, b.Debit = bad, Pick(r, lv)
+		case "debit":
+			b.Credit, b.Debit = Pick(r, lv), bad
+		default:
+			bad2, _ := offender(day)
+			if bad2 == bad {
+				bad2, _ = ghost()
+			}
+			if bad2 == bad {
+				return b, false
+			}
+			b.Credit, b.Debit = bad, bad2
+		}
+		tagSet["ill:"+why] = true
+		tagSet["ill:side-"+side] = true
+		if strings.HasPrefix(b.Qty, "-") {
+			tagSet["ill:negative"] = true
+		} else if b.Qty == "0" {
+			tagSet["ill:zero"] = true
+		}
+		return b, true
+	}
+	var txs []int
+	for i, d := range j.Dirs {
+		if d.Kind == 't' && d.Accrual == nil {
+			txs = append(txs, i)
+		}
+	}
+	shape := ""
+	n := Pick(r, []int{1, 1, 1, 2, 3, 4})
+	if len(tagSet) > 0 && r.Bool() {
+		n, shape = 0, "open-moved" // the moved open only
+	}
+	for k := 0; k < n; k++ {
+		how := r.Intn(6)
+		if len(txs) == 0 && how < 4 {
+			how = 4 + r.Intn(2)
+		}
+		sh := ""
+		switch how {
+		case 0, 1, 2: // a further booking in an existing transaction: first, middle, last
+			i := Pick(r, txs)
+			if k == 0 && r.Chance(1, 3) {
+				i = txs[len(txs)-1] // late in the file
+			}
+			b, ok := booking(j.Dirs[i].Date)
+			if !ok {
+				continue
+			}
+			bks := append([]JBook(nil), j.Dirs[i].Bookings...)
+			at := r.Intn(len(bks) + 1)
+			bks = append(bks, JBook{})
+			copy(bks[at+1:], bks[at:])
+			bks[at] = b
+			j.Dirs[i].Bookings = bks
+			switch {
+			case len(bks) == 1:
+				sh = "alone"
+			case at == 0:
+				sh = "first"
+			case at == len(bks)-1:
+				sh = "last"
+			default:
+				sh = "middle"
+			}
+		case 3: // one side of an existing booking moves to the account that is not open
+			i := Pick(r, txs)
+			if len(j.Dirs[i].Bookings) == 0 {
+				continue
+			}
+			bad, why := offender(j.Dirs[i].Date)
+			bks := append([]JBook(nil), j.Dirs[i].Bookings...)
+			at := r.Intn(len(bks))
+			if r.Bool() {
+				bks[at].Credit = bad
+				tagSet["ill:side-credit"] = true
+			} else {
+				bks[at].Debit = bad
+				tagSet["ill:side-debit"] = true
+			}
+			tagSet["ill:"+why] = true
+			j.Dirs[i].Bookings = bks
+			sh = "replaced"
+		case 4: // a transaction of its own on a day of the journal
+			day := j.Dirs[r.Intn(len(j.Dirs))].Date
+			b, ok := booking(day)
+			if !ok {
+				continue
+			}
+			t := JDir{Kind: 't', Date: day, Desc: Pick(r, []string{"bonus", "transfer", "x"}), Bookings: []JBook{b}}
+			at := len(j.Dirs)
+			for at > 0 && j.Dirs[at-1].Date > day {
+				at--
+			}
+			j.Dirs = append(j.Dirs, JDir{})
+			copy(j.Dirs[at+1:], j.Dirs[at:])
+			j.Dirs[at] = t
+			for x := range txs {
+				if txs[x] >= at {
+					txs[x]++
+				}
+			}
+			sh = "own-transaction"
+		case 5: // after everything
+			day := lastDay + r.Intn(3)
+			b, ok := booking(day)
+			if !ok {
+				continue
+			}
+			t := JDir{Kind: 't', Date: day, Desc: "late", Bookings: []JBook{b}}
+			if lv := live(day); len(lv) >= 2 && r.Bool() { // in the company of a well-formed booking
+				w := JBook{lv[0], lv[1], qty(), Pick(r, coms)}
+				if r.Bool() {
+					t.Bookings = []JBook{w, b}
+				} else {
+					t.Bookings = []JBook{b, w}
+				}
+			}
+			if day > lastDay {
+				lastDay = day
+			}
+			j.Dirs = append(j.Dirs, t)
+			sh = "late-transaction"
+		}
+		if shape == "" {
+			shape = sh
+		}
+		tagSet["ill:"+sh] = true
+	}
+	if shape == "" {
+		shape = "well-formed"
+	}
+	if n > 1 {
+		tagSet["ill:several"] = true
+	}
+	tagSet["shape:ill-"+shape] = true
+	var tags []string
+	for t := range tagSet {
+		tags = append(tags, t)
+	}
+	sort.Strings(tags)
+	return tags
+}
+
+// c01IncludeTree distributes the directives of a journal over a root file and 1-3 included files (chain or star, one of
+// them in a sub-directory); the returned map holds the files by relative path, the root is "main.knut".
+func c01IncludeTree(r *RNG, j *Journal) map[string]string {
+	nf := r.Range(2, 4)
+	path := []string{"main.knut"}
+	parent := []int{-1}
+	for f := 1; f < nf; f++ {
+		p := 0
+		if r.Bool() {
+			p = r.Intn(f)
+		}
+		name := fmt.Sprintf("inc%d.knut", f)
+		if r.Chance(1, 3) {
+			name = "sub/" + name
+		}
+		// included paths are relative to the including file: keep sub/ files' children next to them
+		if strings.HasPrefix(path[p], "sub/") && !strings.HasPrefix(name, "sub/") {
+			name = "sub/" + name
+		}
+		path = append(path, name)
+		parent = append(parent, p)
+	}
+	body := make([]strings.Builder, nf)
+	for f := 1; f < nf; f++ {
+		rel := path[f]
+		if strings.HasPrefix(path[parent[f]], "sub/") {
+			rel = strings.TrimPrefix(rel, "sub/")
+		}
+		fmt.Fprintf(&body[parent[f]], "include \"%s\"\n\n", rel)
+	}
+	// runs of directives go to one file; the last transactions often go to an included file
+	cur := r.Intn(nf)
+	for _, d := range j.Dirs {
+		if r.Chance(1, 3) {
+			cur = r.Intn(nf)
+		}
+		body[cur].WriteString(d.Text())
+		body[cur].WriteString("\n")
+	}
+	files := map[string]string{}
+	for f := range path {
+		files[path[f]] = body[f].String()
+	}
+	return files
+}
+
+// c01GenIllformed generates the cases of stream "illformed" and runs the real `knut balance` on them.
+func c01GenIllformed(c *Ctx, stream string, n int) []*balCase {
+	dir := filepath.Join(c.WorkDir, stream)
+	os.MkdirAll(dir, 0o755)
+	var cases []*balCase
+	trees := map[int]map[string]string{}
+	for i := 0; i < n; i++ {
+		if !c.Want(stream, i) {
+			continue
+		}
+		r := c.Rng(stream, i)
+		inc := r.Chance(1, 3)
+		o := JGenOpts{MaxAccounts: r.Range(2, 8), MaxDays: r.Range(1, 8), Unicode: r.Chance(1, 3), BaseDay: 737000 + r.Intn(1500), SpanDays: Pick(r, []int{0, 5, 40, 100, 400, 800}),
+			ManyDecimals: r.Chance(1, 3), Accruals: r.Chance(1, 4), DupPrices: r.Chance(1, 2), CaseVariants: r.Chance(1, 2), BookOut: r.Chance(1, 2)}
+		if inc {
+			// the directives of one day reach the pipeline in an order that depends on the tree (and on the scheduling of the
+			// parsers): no pair is declared twice on one day, nothing else in a report depends on the order within a day
+			o.DupPrices = false
+		}
+		if r.Chance(1, 2) {
+			o.Prices, o.Valuation = true, Pick(r, []string{"CHF", "USD"})
+		}
+		j, tags := GenJournal(r, o)
+		tags = append(tags, c01Illform(r, j)...)
+		f := GenBalFlags(r, j, o.Valuation, BalGenOpts{Valued: true, NoFilters: true})
+		text, _ := j.Text()
+		if inc {
+			tree := c01IncludeTree(r, j)
+			trees[i] = tree
+			var names []string
+			for name := range tree {
+				names = append(names, name)
+			}
+			sort.Strings(names)
+			var b strings.Builder
+			for _, name := range names {
+				fmt.Fprintf(&b, "# ---- file %s\n%s", name, tree[name])
+			}
+			text = b.String()
+			tags = append(tags, "include-tree")
+		}
+		cases = append(cases, &balCase{Idx: i, J: j, Text: text, F: f, Tags: tags})
+	}
+	parallelFor(len(cases), 16, func(k int) {
+		bc := cases[k]
+		tree, ok := trees[bc.Idx]
+		if !ok {
+			tree = map[string]string{"main.knut": bc.Text}
+		}
+		root := filepath.Join(dir, fmt.Sprintf("c%d", bc.Idx))
+		for name, content := range tree {
+			p := filepath.Join(root, name)
+			os.MkdirAll(filepath.Dir(p), 0o755)
+			os.WriteFile(p, []byte(content), 0o644)
+		}
+		args := append([]string{"balance"}, bc.F.Args()...)
+		args = append(args, filepath.Join(root, "main.knut"))
+		bc.Code, bc.Stdout, bc.Stderr = runKnut(c.KnutBin, 20*time.Second, nil, args...)
+		os.RemoveAll(root)
+	})
 	return cases
 }
